@@ -122,6 +122,7 @@ def cases(tier, rng):
                            "srcs": [{"kind": kind, "script": [["o", j, j % 2] for j in range(ln)]}],
                            "fns": [dict(fn, flavour=s1.FLAV[(i + k) % 4], fail_at=k, fail_kind="stop")], "cons": {"fin": "exhaust"}}
     yield from _pyobj_cases()
+    yield from s1.impure_fn_cases(tier, rng, KINDS, tools_subset=s1.AGG_TOOLS)
     yield from s1.odd_value_cases(tier, rng, KINDS, 300 if tier == "quick" else 5000, tools_subset=["all", "any", "list", "tuple"])
     nr = 3000 if tier == "quick" else 50000
     g = grid(tier)
